@@ -7,12 +7,14 @@ package main
 // floating-point conversion rounds up).
 
 import (
+	"bytes"
 	"fmt"
 	"time"
 
 	"github.com/ovh/kmip-go/ttlv"
 
 	"verifharness/internal/h"
+	"verifharness/internal/tv"
 )
 
 func c04IntervalLeg(c *h.Ctx) {
@@ -74,6 +76,46 @@ func c04IntervalLeg(c *h.Ctx) {
 					c.Fail("C04/"+format+"/interval-differs-from-binary", fmt.Sprintf("the duration %ds+%dns is carried as %v by the binary encoding and as %v %s by %s", s, f, b, t, tm, format), cj)
 				}
 			}
+		}
+	}
+}
+
+// c04RetainedLeg (oracle only): a document the library has handed out stays what it was while other values
+// are encoded, in this goroutine and in another one ("the XML and JSON encodings are well-formed documents"
+// is judged when the document is used, not only in the instant it is returned).
+func c04RetainedLeg(c *h.Ctx) {
+	r := c.Rng.Fork(424242)
+	marshalers := []struct {
+		name string
+		f    func(any) []byte
+	}{{"xml", ttlv.MarshalXML}, {"json", ttlv.MarshalJSON}}
+	for i := 0; i < 24; i++ {
+		v1 := tv.ToValue(tv.Gen(r.Fork(uint64(i)), 1+i%3))
+		v2 := tv.ToValue(tv.Gen(r.Fork(uint64(1000+i)), 1+(i+1)%3))
+		for _, m := range marshalers {
+			cj := map[string]any{"part": "retained", "encoding": m.name, "index": i}
+			func() {
+				defer func() { _ = recover() }() // not representable in that encoding: not this leg's subject
+				a := m.f(&v1)
+				keep := bytes.Clone(a)
+				done := make(chan struct{})
+				go func() {
+					defer close(done)
+					defer func() { _ = recover() }()
+					for k := 0; k < 3; k++ {
+						_ = m.f(&v2)
+					}
+				}()
+				for k := 0; k < 3; k++ {
+					_ = m.f(&v2)
+				}
+				<-done
+				c.Eval(fmt.Sprintf("retained/%s/%d", m.name, i), true)
+				c.Count("retained-document:" + m.name)
+				if !bytes.Equal(a, keep) {
+					c.Fail("C04/"+m.name+"/document-overwritten-by-later-encoding", fmt.Sprintf("the %s document returned for one value changed while another value was encoded: %d bytes, first difference at %d", m.name, len(a), c04FirstDiff(a, keep)), cj)
+				}
+			}()
 		}
 	}
 }
